@@ -495,6 +495,18 @@ class Monitor:
         T = self.T
         self.judge_inputs()
         exp_loop = self.expected_loop_error()
+        # count-based reading of the guard for simulators with exactly one sub-step tier: more
+        # than max_loop_iterations steps within one time step were performed
+        for sid in T.sims:
+            if T.depth(sid) != 2:
+                continue
+            cnt = collections.Counter(x[0] for x in self.X[sid])
+            for t, n in cnt.items():
+                if n > T.max_loop:
+                    self.add("C09", "too-many-sub-steps",
+                             f"{sid} performed {n} steps within time step {t} "
+                             f"(max_loop_iterations={T.max_loop})", sim=sid)
+                    break
         if result[0] == "ok":
             for sid in T.sims:
                 lost = [x for x in self.pending(sid) if x[0] < self.until]
@@ -552,6 +564,11 @@ class Monitor:
             if result[0] == "deadlock" and self.cfg.get("lazy", True) and T.group_reentry():
                 cls = "lazy-wait-across-group-reentry"
             self.add("C05", _outcome_kind(result), f"run() ended with {result}", cls=cls)
+            if not exp_loop and any(c.get("weak") for c in T.conns) \
+                    and result[0] in ("deadlock", "livelock"):
+                self.add("C09", "settling-loop-did-not-complete",
+                         f"the same-time loop settles within the bound but run() ended with "
+                         f"{result[0]}: time does not advance", cls=cls)
             # an unexpected abort also means that the steps still demanded are never executed
             for sid in T.sims:
                 lost = [x for x in self.pending(sid) if x[0] < self.until
